@@ -18,9 +18,16 @@ CHECK = {
              "identity and attributes), have length min(limit, max(0,|M|-skip)), be non-decreasing under the requested keys, every "
              "element must be able to stand at its global position under ties, and more <=> limit>0 and |M|>skip+limit. "
              "Non-trivial: a search with |M|>=2 and (>=2 files with a shadowed ID, or limit+skip<|M|, or OR/NOT/tag in the query); "
-             "distinct = distinct (population, tags, searches)."),
+             "distinct = distinct (population, tags, searches). "
+             "Sub-query campaign (TestVerifC02Sub): the same populations without tags; 1-8 searches per case made of one or two OR-ed parts; a part has one sub-query s or two "
+             "sub-queries a, b, each with 1-2 own filters (@s:cport/sport/port/id range/cbytes/protocol/chost/cdata literal, optionally a capture @s:cdata:\"(?P<v>k[0-9])\" "
+             "binding v), 1-2 main filters using its values (id/cport/sport/cbytes/sbytes equal / at least / at most @s:var@+-d, chost/shost/host equal to @s:chost@/@s:shost@ also "
+             "under /8 and /24 masks, ftime/ltime against @s:ftime@/@s:ltime@ +-5s, cdata/sdata containing @s:v@) and 0-2 plain main filters; every filter except the capture is negated "
+             "with probability 1/6; sort, limit, page and ID restriction as above. Oracle: a stream S satisfies a part iff visible streams T (one per sub-query) exist that satisfy the "
+             "sub-query's own filters and make every main filter true with T's values substituted (brute force over the population; the ID restriction applies to S only); page rule as above. "
+             "Non-trivial: a search whose matches are a proper non-empty subset of the visible streams."),
     "level_text": ("generated populations, index layouts, queries, sort lists, pages and ID restrictions compared with an independent "
-                   "reference; decides the property on the generated space only (no sub-queries, no converters, no grouping); no absence claim"),
+                   "reference; decides the property on the generated space only (sub-queries only in the conjunctive fragment of the sub-query campaign, no grouping); no absence claim"),
     "level_note": ("trusts vq.EvalNF (written from the struct comments of conditions.go); the relative order of equal keys and the order "
                    "between IPv4 and IPv6 hosts under host sorting are not asserted; tag definitions are rebased to the query's "
                    "reference time (as if parsed at the same instant)"),
@@ -30,6 +37,7 @@ CHECK = {
                     "engine errors documented as unsupported (complex host condition, SubQueries, mixed converter names) discard the search"],
     "campaigns": [
         {"test": "TestVerifC02", "checks": {"quick": 48000, "thorough": 800000}, "timeout": {"quick": 600, "thorough": 3600}},
+        {"test": "TestVerifC02Sub", "checks": {"quick": 10000, "thorough": 300000}, "timeout": {"quick": 600, "thorough": 3600}},
         {"test": "TestVerifC02Fixed", "fixed": True, "checks": {"quick": 1, "thorough": 1}},
     ],
 }
